@@ -23,6 +23,7 @@ type txInfo struct {
 	ts    int64
 	home  *blk   // first block that included it (for signatures/probes)
 	fresh string // how its timestamp was chosen
+	setTh int64  // profile "transitions": governance call setTimestampThreshold(setTh ms); 0 = plain transfer
 }
 
 const (
@@ -44,6 +45,12 @@ type blk struct {
 	parentFinalAtLogger bool
 	parentFinalAtAdd    bool
 	finalGen            int // manager incarnation that finalised it
+
+	// profile "transitions" only
+	tr          module.Transition // the real service transition carrying this block's transactions
+	thAfter     int64             // on-chain threshold (us) in the state produced by this block
+	checkerTh   int64             // node-wide TxTimestampChecker threshold (us) when the block was validated
+	resultFinal bool              // FinalizeResult done for tr
 }
 
 func (b *blk) lo() int64 { return b.ts - b.th } // exclusive
@@ -96,6 +103,9 @@ func runC11(rc *kit.RunCtx) {
 		s.faults, s.crashes = true, true
 	case "crash":
 		s.crashes = true
+	case "transitions":
+		runC11Transitions(rc)
+		return
 	}
 	defer s.cleanup()
 	s.setup()
